@@ -20,6 +20,7 @@ type c02state struct {
 	upgradeOK    map[int]string // step -> "" (ok) or reason why the evidence is missing
 	sawUpgrade   map[int]bool
 	trafficOK    map[int]bool
+	skipOK       map[int]bool // the step left StepUpgrade straight to StepMetricsAnalysis under the documented full-replacement skip
 	approved     map[int]bool
 	userRequest  bool // a user request that may legitimately move the cursor happened since the last controller status write
 	pausedAtRid  map[int]bool
@@ -28,6 +29,7 @@ type c02state struct {
 
 func (c *c02state) init() {
 	c.upgradeOK, c.sawUpgrade, c.trafficOK, c.approved, c.pausedAtRid = map[int]string{}, map[int]bool{}, map[int]bool{}, map[int]bool{}, map[int]bool{}
+	c.skipOK = map[int]bool{}
 }
 
 func (c *c02state) resetEpoch(e string) {
@@ -164,6 +166,10 @@ func (s *Set) c02(w *simapi.Write, v *simapi.View) {
 		need := 0
 		if stp != nil {
 			need = interp.PlannedFloor(simapi.Path(stp, "replicas"), R, s.S.Kind, s.S.Style)
+			if full, _ := interp.Planned(simapi.Path(stp, "replicas"), R); sa == "StepMetricsAnalysis" && s.isRealPartitionStyle() && full >= R {
+				// documented skip, decided for the size the workload has now (a later resize does not undo it)
+				st.skipOK[kb] = true
+			}
 		}
 		_, ready := s.newReady(v)
 		s.count("c02_upgrade_exits_checked", 1)
@@ -224,7 +230,7 @@ func (s *Set) c02(w *simapi.Write, v *simapi.View) {
 		// documented skip: real-partition steps that replace every stable pod go Upgrade -> MetricsAnalysis
 		R := s.replicasNow(v)
 		need, _ := interp.Planned(simapi.Path(stp, "replicas"), R)
-		if !(s.isRealPartitionStyle() && need >= R) {
+		if !(s.isRealPartitionStyle() && need >= R) && !st.skipOK[kb] {
 			s.violate("C02", "c02:advanced-without-traffic-routing", fmt.Sprintf("step %d -> %d although step %d configures traffic and was never reported as routed", kb, ka, kb), w, nil)
 		}
 	}
@@ -411,6 +417,12 @@ func (s *Set) Projection(v *simapi.View) map[string]interface{} {
 		reason, status := condReason(ro, "Progressing")
 		_, succ := condReason(ro, "Succeeded")
 		rp := map[string]interface{}{"phase": simapi.Str(ro, "status.phase"), "progressing": reason + "/" + status, "succeeded": succ}
+		if simapi.Str(ro, "status.phase") == "Disabled" {
+			// like the cursor: the conditions a disabled Rollout keeps record where the user's action caught the release
+			delete(rp, "progressing")
+			delete(rp, "succeeded")
+			succ = ""
+		}
 		if succ == "True" {
 			// the cursor of a completed release is determined by the plan; after a rollback / disabling it merely records
 			// where the user's action happened to catch the release
@@ -492,7 +504,7 @@ func (s *Set) c05() {
 	if len(r.UserActions) > 0 {
 		for _, a := range r.UserActions {
 			for _, e := range []string{"rollback", "delete", "disable", "v3"} {
-				if strings.HasPrefix(a, e) {
+				if strings.HasPrefix(a, e) && a != "delete-workload" && a != "delete-tr" {
 					exit = e
 				}
 			}
@@ -501,6 +513,13 @@ func (s *Set) c05() {
 	s.addSet("c05_exit_kinds", fmt.Sprintf("%s/%s/%s/%s", s.S.Kind, s.S.Style, providerKind(s.S.Provider), exit))
 	wl := s.workload(v)
 	if wl == nil {
+		// the user deleted the workload itself during the release; when the Rollout was deleted afterwards, what the rollout
+		// created must still be gone
+		if exit == "delete" {
+			for _, res := range s.residue(v, false) {
+				s.violate("C05", fmt.Sprintf("c05:residue-after-workload-deleted:%s", firstWords(res, 1)), "after the workload and then the Rollout were deleted: "+res, nil, s.Projection(v))
+			}
+		}
 		return
 	}
 	// one specific history gets its own fingerprint: the Rollout was deleted / disabled after the webhook had held the
@@ -572,6 +591,16 @@ func (s *Set) c05() {
 		if got := simapi.Str(wl, "spec.updateStrategy.type"); got != "RollingUpdate" && got != "" {
 			bad("updateStrategy.type", got, "RollingUpdate")
 		}
+	case "daemonset":
+		if p, ok := simapi.Int(wl, "spec.updateStrategy.rollingUpdate.partition"); ok && p != 0 {
+			bad("updateStrategy.rollingUpdate.partition", p, nil)
+		}
+		if simapi.Bool(wl, "spec.updateStrategy.rollingUpdate.paused") {
+			bad("updateStrategy.rollingUpdate.paused", true, false)
+		}
+		if got := simapi.Str(wl, "spec.updateStrategy.type"); got != "RollingUpdate" && got != "" {
+			bad("updateStrategy.type", got, "RollingUpdate")
+		}
 	case "cloneset":
 		if simapi.Bool(wl, "spec.updateStrategy.paused") {
 			bad("updateStrategy.paused", true, false)
@@ -607,7 +636,7 @@ func (s *Set) c05() {
 	// converged to the user's desired revision
 	tot, ready := s.podsByImage(v)
 	img := workloadImage(wl)
-	R := int(simapi.IntD(wl, "spec.replicas", 1))
+	R := s.replicasNow(v)
 	if len(tot) != 1 || tot[img] != R || ready[img] != R {
 		s.violate("C05", fmt.Sprintf("c05:not-converged:%s/%s:%s", s.S.Kind, s.S.Style, exit), fmt.Sprintf("after the rollout ended (%s) and the cluster went quiet, pods are %v (ready %v), the user wants %d x %s", exit, tot, ready, R, img), nil, s.Projection(v))
 	}
